@@ -127,7 +127,7 @@ func respell(t *rapid.T) (*gen.Style, []string, bool) {
 	st := gen.DefaultStyle()
 	var names []string
 	permute := false
-	all := []string{"newline", "indent", "comments", "multiline", "spread", "quote-names", "trailing-comma", "blank-lines", "rule-order", "space-before-colon", "empty-annotations", "mixed-annotations", "enum-item-notes", "note-on-next-line", "join-lines", "notes"}
+	all := []string{"newline", "indent", "comments", "multiline", "spread", "quote-names", "trailing-comma", "blank-lines", "rule-order", "space-before-colon", "empty-annotations", "mixed-annotations", "enum-item-notes", "note-on-next-line", "join-lines", "notes", "stray-notes"}
 	n := rapid.IntRange(1, 5).Draw(t, "nrewrites")
 	for _, r := range rapid.Permutation(all).Draw(t, "rewrites")[:n] {
 		names = append(names, r)
@@ -166,6 +166,8 @@ func respell(t *rapid.T) (*gen.Style, []string, bool) {
 			st.JoinLines = true // several properties per line, one-line containers (no effect together with comments)
 		case "note-on-next-line":
 			st.NoteNextLine = true
+		case "stray-notes":
+			st.StrayNotes = rapid.IntRange(1, 3).Draw(t, "strayNotes") // notes on lines where no value starts
 		case "empty-annotations":
 			st.EmptyAnn = rapid.IntRange(1, 3).Draw(t, "emptyAnn") // bare "//" after values without rules
 		case "rule-order":
@@ -188,7 +190,7 @@ func respell(t *rapid.T) (*gen.Style, []string, bool) {
 	}
 	if st.JoinLines {
 		// joining lines only works where nothing else is written at the ends of lines
-		st.Comments, st.EmptyAnn, st.AutoNotes = 0, 0, 0
+		st.Comments, st.EmptyAnn, st.AutoNotes, st.StrayNotes = 0, 0, 0, 0
 	}
 	sort.Strings(names)
 	return st, names, permute
